@@ -39,6 +39,9 @@ def generate(rng, tier, focus):
         eid[0] += 1
         return ("e", eid[0] % 50 + 1)
 
+    def fresh_err_ev():
+        return e(fresh_err()[1])
+
     # (a) error at every position through C02 operators and chains
     for _ in range(1200 if thorough else 200):
         xs = [rng.choice(ITEMS) for _ in range(rng.randrange(0, 6))]
@@ -54,6 +57,18 @@ def generate(rng, tier, focus):
         scripts = [scen.script([rng.choice(ITEMS) for _ in range(rng.randrange(0, 4))], rng.choice(["c", "s", fresh_err()])) for _ in range(ns)]
         p = op(opn, [], ["cold", 0], *[["cold", j] for j in range(1, ns)])
         cases.append((scn(srcs=[src([s], False) for s in scripts], handles=1, script_=[sub(0, p)]), {"k": "multi"}))
+    # (b') the same over two HOT inputs driven in interleaved order: the error arrives at any moment of the operator's life (before /
+    #      after the other input has emitted, after a switch, after the gate opened), and the subjects go on emitting afterwards
+    for _ in range(2500 if thorough else 400):
+        opn = rng.choice(["merge", "zip", "amb", "take_until", "skip_until", "sample", "switch_on_next", "switch_on_next", "concat"])
+        p = scen.multi_op(rng, opn, ["hot", 0], [["hot", 1]])
+        if rng.random() < 0.3:
+            p = scen.rand_chain(rng, p, 1, names=["map", "filter", "scan", "skip", "take_last", "tap"])
+        E = [["emit", rng.randrange(2), n(rng.choice(ITEMS))] for _ in range(rng.randrange(1, 6))]
+        E.insert(rng.randrange(0, len(E) + 1), ["emit", rng.randrange(2), fresh_err_ev()])
+        if rng.random() < 0.4:
+            E.append(["emit", rng.randrange(2), rng.choice([C, fresh_err_ev()])])
+        cases.append((scn(subjects=[["subject"], ["subject"]], handles=1, script_=[sub(0, p)] + E), {"k": "multi-hot"}))
     # (c) retry / retry_when
     for _ in range(6000 if thorough else 1000):
         nfail = rng.choice([0, 1, 1, 2, 3, 4])
@@ -177,6 +192,19 @@ def judge_impl(cases, obs):
                 terms = [x[0] for x in evs if x[0] != "n"]
                 if got != info["want"] or terms != [info["end"]] or (evs and evs[-1][0] == "n"):
                     out0.append((i, "subscriber %s of a shared cold source that emits %s and then ends with '%s' received %s" % (u, info["want"], info["end"], sx.dumps(evs))))
+                    break
+        if info.get("k") == "multi-hot" and "amb" not in ops_of(sc):      # (amb keeps the losers subscribed until they next emit: their error is dropped by design)
+            # the operator's FIRST input fails while the operator still holds its subscription to it (the subject counts an observer
+            # just before the error) and the subscriber is alive: the error is the subscriber's last event
+            script = [a for a in sx.field(sc[1:], "script")]
+            snaps = {int(s_[0]): s_ for s_ in ob["snaps"]}
+            for k, a in enumerate(script):
+                if a[0] == "emit" and int(a[1]) == 0 and a[2][0] == "e" and k in snaps:
+                    flags, counts = snaps[k][1], snaps[k][2]
+                    if str(flags[0]) == "1" and int(counts[0]) >= 1:
+                        evs = [x[2] for x in ob["log"] if x[0] == "t0"]
+                        if not evs or evs[-1][0] != "e" or str(evs[-1][1]) != str(a[2][1]):
+                            out0.append((i, "the first input failed with error %s while the operator was still subscribed to it and the subscriber alive; the subscriber received %s - the error must be its last event" % (a[2][1], sx.dumps(evs))))
                     break
         if info.get("k") == "emits-after-error":
             evs = [x[2] for x in ob["log"] if x[0] == "t0"]
